@@ -1,5 +1,5 @@
 (* Properties/C12.v — no request can crash a node or poison the replicated log. *)
-From Verif Require Import Base.Prelude Store.Spec Store.Partition Codec.Model Codec.Proofs Api.Validate Api.ValidateProofs Generated.Facts.
+From Verif Require Import Base.Prelude Store.Spec Store.Partition Codec.Model Codec.Proofs Api.Validate Api.ValidateProofs Store.Translated Generated.Translated Generated.Facts.
 Open Scope N_scope.
 
 Definition fb12 (f : fact bool) (dflt : bool) : bool := match f with Known b => b | Unrecognised _ => dflt end.
@@ -64,7 +64,13 @@ Example C12_nonvacuous :
   = ([{| it_id := Some 8; it_vec := [3; 4]; it_meta := [] |}], 2%nat).
 Proof. split; [repeat constructor|reflexivity]. Qed.
 
+(* the bounds check every write path applies (index.Metadata.Validate) as TRANSLATED from index/metadata.go on this run
+   is the model's meta_fits - the bounds of the snapshot encoding *)
+Theorem C12_validate_translated : forall m, go_Metadata_Validate (lens m) = meta_fits m.
+Proof. exact go_Validate_is_model. Qed.
+
 Print Assumptions C12_no_poison.
 Print Assumptions C12_every_item_answered.
 Print Assumptions C12_bound_is_codec_bound.
 Print Assumptions C12_dataset_params.
+Print Assumptions C12_validate_translated.
